@@ -10,23 +10,47 @@
   * `spelling_same_result`     two source texts whose line lists are related by `SpellRel` — a line
                                kept (include / include_bytes lines too, to any nesting), a line
                                re-spelled (`SepEq`), a line rewritten between the two base+offset
-                               forms, a line whose registers are spelled differently, a blank or
-                               comment-only line inserted or deleted — assemble to the same bytes,
-                               labels and constants, or both fail.  Line numbers shift and line
-                               contents differ: that is what `assemble_ignores_line_metadata` (C14)
-                               absorbs; register spellings differ in the items themselves: that is
-                               `assembleItems_regSame` (every pass and every encoder consults a
-                               register operand only through `lookup_register`).
-  * `base_offset_same_result`, `regspell_same_result`   one rewritten line, everything else kept.
+                               forms, a line whose registers are spelled differently, a line whose
+                               INTEGERS are spelled differently (16 / 0x10 / 0b10000: `ints`), a
+                               blank or comment-only line inserted or deleted — assemble to the
+                               same bytes, labels and constants, or both fail
+                               (`spelling_same_result_errors`: and then in the same way).
+                               Line numbers shift and line contents differ: that is what
+                               `assemble_ignores_line_metadata` (C14) absorbs; register spellings
+                               differ in the items themselves: `assembleItems_regSame` (every pass
+                               and every encoder consults a register operand only through
+                               `lookup_register`); integer spellings differ in the immediates:
+                               C11's `imm_congruence_all` (the passes use an immediate text only
+                               through its value).  `assembleItems_spellItem` composes the two.
+  * `base_offset_same_result`, `regspell_same_result`, `intspell_same_result`   one rewritten line,
+                               everything else kept.
+  * `regRespelled_of_tokens`, `regRespelled_flat3`, `intRespelled_flat3`   `RegRespelled` /
+                               `IntRespelled` are stated through the model's lexer and parser; these
+                               give sufficient conditions on the TOKENS (`RegTokens`: R, I, B, U, J
+                               formats, loads and stores in the `off(base)` layout) and on the TEXT
+                               of the two lines (layout `m a, b, c`).
   * `spelling_same_result_rounds`   several rounds of rewriting.
-  Re-spelled lines must not be include / include_bytes / string / error lines, whose text is not
-  token-separated (an indented `include` is no include line at all).
+
+  SCOPE, stated once:
+  * the two programs are given as source TEXT (`Input.source`), read from the same working
+    directory; for a file given by its path use C14 `path_same_as_source` first;
+  * both texts are ASCII (`hA`, `hB`): a non-ASCII comment or string is inside the model
+    (`BB.Props.C10Text`) but outside these theorems;
+  * re-spelled lines must not be include / include_bytes / string / error lines, whose text is not
+    token-separated (an indented `include` is no include line at all);
+  * base+offset: `BaseOffsetPair` covers exactly the layouts `m r, off(base)` ↔ `m r, base, off`
+    (stores: `m rs2, off(rs1)` ↔ `m rs1, rs2, off`) with single spaces, `off` ONE word without
+    parentheses — `lw t0, %lo(sym)(t1)` is not covered (its offset contains parentheses); other
+    spacing is reached by composing with `respell` (`spelling_same_result_rounds`);
+  * mnemonics in `RegTokens` / `intRespelled_flat3` are lower case.
 -/
 import BB.Lemmas.SpellProgram
 import BB.Lemmas.RegSpell
 import BB.Props.C13
+import BB.Props.C11Program
+import BB.Props.C14
 namespace BB.Props.C13
-open BB
+open BB BB.Lemmas
 
 /-! ## a line's items from its tokens -/
 
@@ -229,6 +253,338 @@ theorem regRespelled_orel {a b : List Char} (h : RegRespelled a b) :
       simp only [tokItems, hpa, hpb]
       exact .cons (itemSame_eraseLine hs) .nil
 
+/-! ## registers spelled differently: a condition on the TOKENS (and on the text) -/
+
+def rNames : List String := ["slli", "srli", "srai", "add", "sub", "sll", "slt", "sltu", "xor", "srl",
+  "sra", "or", "and", "mul", "mulh", "mulhsu", "mulhu", "div", "divu", "rem", "remu"]
+def iFlatNames : List String := ["addi", "slti", "sltiu", "xori", "ori", "andi", "csrrw", "csrrs", "csrrc",
+  "csrrwi", "csrrsi", "csrrci"]
+def bNames : List String := ["beq", "bne", "blt", "bge", "bltu", "bgeu"]
+def uNames : List String := ["lui", "auipc"]
+def loadNames : List String := ["lb", "lh", "lw", "lbu", "lhu"]
+def storeNames : List String := ["sb", "sh", "sw"]
+
+/-- the names above are the format dictionaries of the parser (minus `jalr`, whose one-operand form
+    is a pseudo-instruction, and the compressed forms) -/
+example : (∀ m ∈ rNames, inDict "R_TYPE_INSTRUCTIONS" m = true) ∧ (∀ m ∈ iFlatNames ++ loadNames, inDict "I_TYPE_INSTRUCTIONS" m = true) ∧
+    (∀ m ∈ bNames, inDict "B_TYPE_INSTRUCTIONS" m = true) ∧ (∀ m ∈ uNames, inDict "U_TYPE_INSTRUCTIONS" m = true) ∧
+    (∀ m ∈ storeNames, inDict "S_TYPE_INSTRUCTIONS" m = true) := by decide
+
+/-- a register token and another spelling of the same register (x8 / s0 / fp / 8 / 0x8 …) -/
+abbrev SameReg (t t' : String) : Prop := RegOp.Same (.str t) (.str t')
+
+/-- **token lists that differ only in how register operands are spelled**, format by format: the
+    mnemonic (lower case), the immediate / reference tokens and the parentheses are the same, a
+    token in a register position is replaced by a spelling of the same register -/
+inductive RegTokens : List String → List String → Prop
+  | r (m : String) {rd rd' rs1 rs1' rs2 rs2' : String} : m ∈ rNames → rd ≠ "=" → rd' ≠ "=" →
+      SameReg rd rd' → SameReg rs1 rs1' → SameReg rs2 rs2' → RegTokens [m, rd, rs1, rs2] [m, rd', rs1', rs2']
+  | i (m : String) {rd rd' rs1 rs1' : String} (imm : List String) : m ∈ iFlatNames → rd ≠ "=" → rd' ≠ "=" →
+      SameReg rd rd' → SameReg rs1 rs1' → RegTokens (m :: rd :: rs1 :: imm) (m :: rd' :: rs1' :: imm)
+  | b (m : String) {rs1 rs1' rs2 rs2' : String} (ref : String) : m ∈ bNames → rs1 ≠ "=" → rs1' ≠ "=" →
+      SameReg rs1 rs1' → SameReg rs2 rs2' → RegTokens [m, rs1, rs2, ref] [m, rs1', rs2', ref]
+  | u (m : String) {rd rd' : String} (imm : List String) : m ∈ uNames → rd ≠ "=" → rd' ≠ "=" →
+      SameReg rd rd' → RegTokens (m :: rd :: imm) (m :: rd' :: imm)
+  | j {rd rd' : String} (ref : String) : rd ≠ "=" → rd' ≠ "=" → SameReg rd rd' →
+      RegTokens ["jal", rd, ref] ["jal", rd', ref]
+  | load (m : String) {rd rd' base base' : String} (off : String) : m ∈ loadNames → rd ≠ "=" → rd' ≠ "=" →
+      SameReg rd rd' → SameReg base base' →
+      RegTokens [m, rd, off, "(", base, ")"] [m, rd', off, "(", base', ")"]
+  | store (m : String) {rs1 rs1' rs2 rs2' : String} (off : String) : m ∈ storeNames → rs2 ≠ "=" → rs2' ≠ "=" →
+      SameReg rs1 rs1' → SameReg rs2 rs2' →
+      RegTokens [m, rs2, off, "(", rs1, ")"] [m, rs2', off, "(", rs1', ")"]
+
+theorem parse_rtype (l : Line) (m rd rs1 rs2 : String) (hm : m ∈ rNames) (hne : rd ≠ "=") :
+    parseItem l [m, rd, rs1, rs2] = .ok (.instr l (.r m (.str rd) (.str rs1) (.str rs2))) := by
+  simp only [rNames, List.mem_cons, List.not_mem_nil, or_false] at hm
+  rcases hm with rfl | rfl | rfl | rfl | rfl | rfl | rfl | rfl | rfl | rfl | rfl | rfl | rfl | rfl | rfl | rfl | rfl | rfl | rfl | rfl | rfl <;>
+  · unfold parseItem
+    simp only [if_neg hne]
+    rfl
+
+theorem parse_iflat (l : Line) (m rd rs1 : String) (imm : List String) (hm : m ∈ iFlatNames) (hne : rd ≠ "=") :
+    parseItem l (m :: rd :: rs1 :: imm) = withImm l imm (fun i => .i m (.str rd) (.str rs1) i false) := by
+  simp only [iFlatNames, List.mem_cons, List.not_mem_nil, or_false] at hm
+  rcases hm with rfl | rfl | rfl | rfl | rfl | rfl | rfl | rfl | rfl | rfl | rfl | rfl <;>
+  · unfold parseItem
+    simp only [if_neg hne]
+    rfl
+
+theorem parse_btype (l : Line) (m rs1 rs2 ref : String) (hm : m ∈ bNames) (hne : rs1 ≠ "=") :
+    parseItem l [m, rs1, rs2, ref] = withImm l (refImm ref) (fun i => .b m (.str rs1) (.str rs2) i) := by
+  simp only [bNames, List.mem_cons, List.not_mem_nil, or_false] at hm
+  rcases hm with rfl | rfl | rfl | rfl | rfl | rfl <;>
+  · unfold parseItem
+    simp only [if_neg hne]
+    rfl
+
+theorem parse_utype (l : Line) (m rd : String) (imm : List String) (hm : m ∈ uNames) (hne : rd ≠ "=") :
+    parseItem l (m :: rd :: imm) = withImm l imm (fun i => .u m (.str rd) i) := by
+  simp only [uNames, List.mem_cons, List.not_mem_nil, or_false] at hm
+  rcases hm with rfl | rfl <;> cases imm <;>
+  · unfold parseItem
+    simp only [if_neg hne]
+    rfl
+
+theorem parse_jal (l : Line) (rd ref : String) (hne : rd ≠ "=") :
+    parseItem l ["jal", rd, ref] = withImm l (refImm ref) (fun i => .j "jal" (.str rd) i) := by
+  unfold parseItem
+  simp only [if_neg hne]
+  rfl
+
+theorem parse_load (l : Line) (m rd off base : String) (hm : m ∈ loadNames) (hne : rd ≠ "=") :
+    parseItem l [m, rd, off, "(", base, ")"] = withImm l [off] (fun i => .i m (.str rd) (.str base) i false) := by
+  simp only [loadNames, List.mem_cons, List.not_mem_nil, or_false] at hm
+  rcases hm with rfl | rfl | rfl | rfl | rfl <;>
+  · unfold parseItem
+    simp only [if_neg hne]
+    rfl
+
+theorem parse_store (l : Line) (m rs1 rs2 off : String) (hm : m ∈ storeNames) (hne : rs2 ≠ "=") :
+    parseItem l [m, rs2, off, "(", rs1, ")"] = withImm l [off] (fun i => .s m (.str rs1) (.str rs2) i) := by
+  simp only [storeNames, List.mem_cons, List.not_mem_nil, or_false] at hm
+  rcases hm with rfl | rfl | rfl <;>
+  · unfold parseItem
+    simp only [if_neg hne]
+    rfl
+
+theorem withImm_same (l : Line) (imm : List String) {k k' : Imm → Instr} (h : ∀ i, Instr.Same (k i) (k' i)) :
+    ExRel Item.Same (withImm l imm k) (withImm l imm k') := by
+  unfold withImm
+  cases parseImmediate imm l with
+  | error e => rfl
+  | ok i => exact .instr l (h i)
+
+/-- **the parser maps such token lists to `Item.Same` items** (or fails on both with the same error:
+    a malformed immediate) -/
+theorem regTokens_parse (l : Line) {ta tb : List String} (h : RegTokens ta tb) :
+    ExRel Item.Same (parseItem l ta) (parseItem l tb) := by
+  cases h with
+  | r m hm h1 h2 s1 s2 s3 =>
+    rw [parse_rtype l m _ _ _ hm h1, parse_rtype l m _ _ _ hm h2]
+    exact .instr l (.r m s1 s2 s3)
+  | i m imm hm h1 h2 s1 s2 =>
+    rw [parse_iflat l m _ _ imm hm h1, parse_iflat l m _ _ imm hm h2]
+    exact withImm_same l imm (fun i => .i m i false s1 s2)
+  | b m ref hm h1 h2 s1 s2 =>
+    rw [parse_btype l m _ _ ref hm h1, parse_btype l m _ _ ref hm h2]
+    exact withImm_same l _ (fun i => .b m i s1 s2)
+  | u m imm hm h1 h2 s1 =>
+    rw [parse_utype l m _ imm hm h1, parse_utype l m _ imm hm h2]
+    exact withImm_same l imm (fun i => .u m i s1)
+  | j ref h1 h2 s1 =>
+    rw [parse_jal l _ ref h1, parse_jal l _ ref h2]
+    exact withImm_same l _ (fun i => .j "jal" i s1)
+  | load m off hm h1 h2 s1 s2 =>
+    rw [parse_load l m _ off _ hm h1, parse_load l m _ off _ hm h2]
+    exact withImm_same l _ (fun i => .i m i false s1 s2)
+  | store m off hm h1 h2 s1 s2 =>
+    rw [parse_store l m _ _ off hm h1, parse_store l m _ _ off hm h2]
+    exact withImm_same l _ (fun i => .s m i s1 s2)
+
+theorem RegTokens.ne_nil {ta tb : List String} (h : RegTokens ta tb) : ta ≠ [] ∧ tb ≠ [] := by
+  cases h <;> exact ⟨by simp, by simp⟩
+
+/-- **token-level sufficient condition for `RegRespelled`**: the two lines lex to token lists that
+    differ only in register spellings (`RegTokens`) and the first parses (its immediate is
+    well-formed) -/
+theorem regRespelled_of_tokens {a b : List Char} {ta tb : List String} {ia : Item}
+    (pa : IsPlainLine a) (pb : IsPlainLine b) (na : a.contains '\n' = false) (nb : b.contains '\n' = false)
+    (la : lexTokens a = .ok ta) (lb : lexTokens b = .ok tb) (h : RegTokens ta tb)
+    (hp : parseItem default ta = .ok ia) : RegRespelled a b := by
+  have hr := regTokens_parse default h
+  rw [hp] at hr
+  cases hq : parseItem default tb with
+  | error e => rw [hq] at hr; exact absurd hr (by simp [ExRel])
+  | ok ib =>
+    rw [hq] at hr
+    exact ⟨pa, pb, na, nb, ta, tb, ia, ib, la, lb, h.ne_nil.1, h.ne_nil.2, hp, hq, hr⟩
+
+theorem operand_head_plain {m : List Char} (hm : Operand m) (hi : m.head?.map Char.toLower ≠ some 'i')
+    (rest : List Char) : IsPlainLine (m ++ rest) := by
+  cases m with
+  | nil => exact absurd rfl hm.1.1
+  | cons c cs => exact isPlainLine_of_head c _ (fun h => hi (by simp [h]))
+
+/-- **the same on the TEXT of the two lines**, for the three-operand layout `m a, b, c`: the words
+    are `Operand`s (ASCII, no separator / parenthesis / `#` / quote inside), the mnemonic is not
+    `error` / `string` and does not start with `i`, and the token lists are `RegTokens`-related —
+    e.g. `add x8, x9, x10` and `add fp, s1, 0xa`, `addi t0, sp, 16` and `addi x5, x2, 16`,
+    `beq a0, zero, done` and `beq x10, x0, done` -/
+theorem regRespelled_flat3 (m a b c a' b' c' : List Char) {ia : Item}
+    (hm : Operand m) (ha : Operand a) (hb : Operand b) (hc : Operand c)
+    (ha' : Operand a') (hb' : Operand b') (hc' : Operand c')
+    (he : m ≠ "error".toList) (hs : m ≠ "string".toList) (hi : m.head?.map Char.toLower ≠ some 'i')
+    (h : RegTokens [String.ofList m, String.ofList a, String.ofList b, String.ofList c]
+                   [String.ofList m, String.ofList a', String.ofList b', String.ofList c'])
+    (hp : parseItem default [String.ofList m, String.ofList a, String.ofList b, String.ofList c] = .ok ia) :
+    RegRespelled (m ++ ([' '] ++ (a ++ ([',', ' '] ++ (b ++ ([',', ' '] ++ c))))))
+                 (m ++ ([' '] ++ (a' ++ ([',', ' '] ++ (b' ++ ([',', ' '] ++ c')))))) := by
+  refine regRespelled_of_tokens (operand_head_plain hm hi _) (operand_head_plain hm hi _) ?_ ?_
+    (lex_flat_form m a b c hm ha hb hc he hs) (lex_flat_form m a' b' c' hm ha' hb' hc' he hs) h hp
+  · simp [operand_no_nl hm, operand_no_nl ha, operand_no_nl hb, operand_no_nl hc]
+  · simp [operand_no_nl hm, operand_no_nl ha', operand_no_nl hb', operand_no_nl hc']
+
+/-! ## integers spelled differently (16 / 0x10 / 0b10000) -/
+
+/-- two immediates that differ only in how an arithmetic text is WRITTEN: the two texts have the
+    same value (or fail alike) in every environment — in particular two numerals of one value
+    (`numImm_spellings`), bare, under `%position`, under `%hi` / `%lo` -/
+inductive NumImm : Imm → Imm → Prop
+  | refl (a : Imm) : NumImm a a
+  | arith (e e' : String) : (∀ env, evalArith e env = evalArith e' env) → NumImm (.arith e) (.arith e')
+  | position (ref e e' : String) : (∀ env, evalArith e env = evalArith e' env) →
+      NumImm (.position ref e) (.position ref e')
+  | hi {a b : Imm} : NumImm a b → NumImm (.hi a) (.hi b)
+  | lo {a b : Imm} : NumImm a b → NumImm (.lo a) (.lo b)
+
+theorem NumImm.immRel (fs : FS) {a b : Imm} (h : NumImm a b) : ImmRel (textHooks fs) (fun _ => True) a b := by
+  induction h with
+  | refl a => exact .refl a
+  | arith e e' he => exact .arith e e' (fun env _ => he env)
+  | position ref e e' he => exact .position ref e e' (fun env _ => he env)
+  | hi _ ih => exact .hi ih
+  | lo _ ih => exact .lo ih
+
+/-- **the three spellings of one natural number** are such a pair (C11 `lit_arith`: decimal, `0x…`,
+    `0b…`; texts of at most `maxExprLen` = 400 characters) -/
+theorem numImm_spellings (n : Nat) (l l' : List Char)
+    (hl : l = C11.decStr n ∨ l = C11.hexStr n ∨ l = C11.binStr n)
+    (hl' : l' = C11.decStr n ∨ l' = C11.hexStr n ∨ l' = C11.binStr n)
+    (hlen : l.length ≤ maxExprLen) (hlen' : l'.length ≤ maxExprLen) :
+    NumImm (.arith (String.ofList l)) (.arith (String.ofList l')) := by
+  refine .arith _ _ (fun env => ?_)
+  unfold evalArith
+  rw [String.toList_ofList, String.toList_ofList, C11.lit_arith env l n hl hlen, C11.lit_arith env l' n hl' hlen']
+
+/-- the same item up to the writing of an immediate (`NumImm`): instructions of every format,
+    constant definitions, `pack`, `db` … `dd`, and the operand of `li` -/
+inductive NumItem : Item → Item → Prop
+  | refl (a : Item) : NumItem a a
+  | instr (line : Line) {a : Instr} {imm imm' : Imm} : a.imm? = some imm → NumImm imm imm' →
+      NumItem (.instr line a) (.instr line (a.setImm imm'))
+  | constant (line : Line) (name : String) {e e' : Imm} : NumImm e e' →
+      NumItem (.constant line name e) (.constant line name e')
+  | pack (line : Line) (fmt : String) {e e' : Imm} : NumImm e e' → NumItem (.pack line fmt e) (.pack line fmt e')
+  | shorthand (line : Line) (name : String) {e e' : Imm} : NumImm e e' →
+      NumItem (.shorthandPack line name e) (.shorthandPack line name e')
+  | li (line : Line) (rd : String) {toks toks' : List String} {imm imm' : Imm} :
+      (∀ ln, parseImmediate toks ln = .ok imm) → (∀ ln, parseImmediate toks' ln = .ok imm') → NumImm imm imm' →
+      NumItem (.pseudo line "li" (rd :: toks)) (.pseudo line "li" (rd :: toks'))
+
+theorem NumItem.itemRel (fs : FS) {a b : Item} (h : NumItem a b) :
+    ItemRel (textHooks fs) (fun _ => True) a b := by
+  cases h with
+  | refl a => exact .refl a
+  | instr line himm hr => exact .instr line (Or.inr ⟨_, _, himm, hr.immRel fs, rfl⟩)
+  | constant line name hr => exact .constant line name (hr.immRel fs)
+  | pack line fmt hr => exact .pack line fmt (hr.immRel fs)
+  | shorthand line name hr => exact .shorthand line name (hr.immRel fs)
+  | li line rd h1 h2 hr => exact C11.li_rel line rd (h1 line) (h2 line) (hr.immRel fs)
+
+theorem numItem_eraseLine {a b : Item} (h : NumItem a b) : NumItem (eraseLine a) (eraseLine b) := by
+  cases h with
+  | refl a => exact .refl _
+  | instr line himm hr => exact .instr default himm hr
+  | constant line name hr => exact .constant default name hr
+  | pack line fmt hr => exact .pack default fmt hr
+  | shorthand line name hr => exact .shorthand default name hr
+  | li line rd h1 h2 hr => exact .li default rd h1 h2 hr
+
+/-- both lines lex and parse, to items that differ at most in how an immediate is written
+    (`NumItem`); see `intRespelled_flat` for a condition on the TEXT of the two lines -/
+def IntRespelled (a b : List Char) : Prop :=
+  IsPlainLine a ∧ IsPlainLine b ∧ a.contains '\n' = false ∧ b.contains '\n' = false ∧
+  ∃ ta tb ia ib, lexTokens a = .ok ta ∧ lexTokens b = .ok tb ∧ ta ≠ [] ∧ tb ≠ [] ∧
+    parseItem default ta = .ok ia ∧ parseItem default tb = .ok ib ∧ NumItem ia ib
+
+/-- what the two freedoms that change the ITEMS amount to: registers re-spelled, then immediates
+    re-written -/
+def SpellItem (a b : Item) : Prop := ∃ m, Item.Same a m ∧ NumItem m b
+
+theorem SpellItem.refl (a : Item) : SpellItem a a := ⟨a, .refl a, .refl a⟩
+theorem SpellItem.of_same {a b : Item} (h : Item.Same a b) : SpellItem a b := ⟨b, h, .refl b⟩
+theorem SpellItem.of_num {a b : Item} (h : NumItem a b) : SpellItem a b := ⟨a, .refl a, h⟩
+
+theorem ListRel.mono' {α : Type} {R S : α → α → Prop} (h : ∀ a b, R a b → S a b) {l l' : List α}
+    (hl : ListRel R l l') : ListRel S l l' := by
+  induction hl with
+  | nil => exact .nil
+  | cons hab _ ih => exact .cons (h _ _ hab) ih
+
+theorem orel_mono {R S : Item → Item → Prop} (h : ∀ a b, R a b → S a b) {x y : Option (List Item)}
+    (hxy : ORel R x y) : ORel S x y := by
+  cases x <;> cases y <;> simp_all [ORel]
+  exact ListRel.mono' h hxy
+
+theorem listRel_spellItem_split {l l' : List Item} (h : ListRel SpellItem l l') :
+    ∃ m, ListRel Item.Same l m ∧ Rel2 NumItem m l' := by
+  induction h with
+  | nil => exact ⟨[], .nil, .nil⟩
+  | cons hab _ ih =>
+    obtain ⟨m, h1, h2⟩ := ih
+    obtain ⟨x, hx1, hx2⟩ := hab
+    exact ⟨x :: m, .cons hx1 h1, .cons hx2 h2⟩
+
+theorem rel2_mono {α : Type} {R S : α → α → Prop} (h : ∀ a b, R a b → S a b) {l l' : List α}
+    (hl : Rel2 R l l') : Rel2 S l l' := by
+  induction hl with
+  | nil => exact .nil
+  | cons hab _ ih => exact .cons (h _ _ hab) ih
+
+/-- **`assembleItems` cannot tell `SpellItem`-related programs apart** (errors included): register
+    spellings by `assembleItems_regSame`, immediates by C11's `imm_congruence_all` -/
+theorem assembleItems_spellItem (fs : FS) (c : Bool) {its its' : List Item} (h : ListRel SpellItem its its') :
+    assembleItems (textHooks fs) c its [] [] = assembleItems (textHooks fs) c its' [] [] := by
+  obtain ⟨m, h1, h2⟩ := listRel_spellItem_split h
+  rw [assembleItems_regSame (textHooks fs) c its m [] h1]
+  exact C11.imm_congruence_all (textHooks fs) c [] [] (rel2_mono (fun _ _ hn => hn.itemRel fs) h2)
+
+theorem intRespelled_orel {a b : List Char} (h : IntRespelled a b) :
+    ORel SpellItem (lineItems a) (lineItems b) := by
+  obtain ⟨_, _, hna, hnb, ta, tb, ia, ib, hla, hlb, hta, htb, hpa, hpb, hs⟩ := h
+  rw [lineItems_eq_tokItems a hna, lineItems_eq_tokItems b hnb, hla, hlb]
+  cases ta with
+  | nil => exact absurd rfl hta
+  | cons t ts =>
+    cases tb with
+    | nil => exact absurd rfl htb
+    | cons u us =>
+      simp only [tokItems, hpa, hpb]
+      exact .cons (SpellItem.of_num (numItem_eraseLine hs)) .nil
+
+/-- **a condition on the TEXT of the two lines** for the layout `m a, b, c` of an I-type instruction
+    (`iFlatNames`: addi … andi, csrr*): the lines differ only in the last word, `c` / `c'`, two texts
+    the parser takes as plain arithmetic (`hpc`, `hpc'`: e.g. any numeral) and that have the same
+    value in every environment (`hnum`, e.g. `numImm_spellings`) — `addi x1, x1, 16`,
+    `addi x1, x1, 0x10`, `addi x1, x1, 0b10000` -/
+theorem intRespelled_flat3 (m a b c c' : List Char)
+    (hm : Operand m) (ha : Operand a) (hb : Operand b) (hc : Operand c) (hc' : Operand c')
+    (hmn : String.ofList m ∈ iFlatNames) (hne : String.ofList a ≠ "=")
+    (hpc : parseImmediate [String.ofList c] default = .ok (.arith (String.ofList c)))
+    (hpc' : parseImmediate [String.ofList c'] default = .ok (.arith (String.ofList c')))
+    (hnum : NumImm (.arith (String.ofList c)) (.arith (String.ofList c'))) :
+    IntRespelled (m ++ ([' '] ++ (a ++ ([',', ' '] ++ (b ++ ([',', ' '] ++ c))))))
+                 (m ++ ([' '] ++ (a ++ ([',', ' '] ++ (b ++ ([',', ' '] ++ c')))))) := by
+  have hes : m ≠ "error".toList ∧ m ≠ "string".toList ∧ m.head?.map Char.toLower ≠ some 'i' := by
+    have e : m = (String.ofList m).toList := (String.toList_ofList).symm
+    simp only [iFlatNames, List.mem_cons, List.not_mem_nil, or_false] at hmn
+    rw [e]
+    rcases hmn with h | h | h | h | h | h | h | h | h | h | h | h <;> rw [h] <;> decide
+  refine ⟨operand_head_plain hm hes.2.2 _, operand_head_plain hm hes.2.2 _, ?_, ?_,
+    [String.ofList m, String.ofList a, String.ofList b, String.ofList c],
+    [String.ofList m, String.ofList a, String.ofList b, String.ofList c'],
+    .instr default (.i (String.ofList m) (.str (String.ofList a)) (.str (String.ofList b)) (.arith (String.ofList c)) false),
+    .instr default (.i (String.ofList m) (.str (String.ofList a)) (.str (String.ofList b)) (.arith (String.ofList c')) false),
+    lex_flat_form m a b c hm ha hb hc hes.1 hes.2.1, lex_flat_form m a b c' hm ha hb hc' hes.1 hes.2.1,
+    by simp, by simp, ?_, ?_, ?_⟩
+  · simp [operand_no_nl hm, operand_no_nl ha, operand_no_nl hb, operand_no_nl hc]
+  · simp [operand_no_nl hm, operand_no_nl ha, operand_no_nl hb, operand_no_nl hc']
+  · rw [parse_iflat default _ _ _ _ hmn hne]; simp only [withImm, hpc]
+  · rw [parse_iflat default _ _ _ _ hmn hne]; simp only [withImm, hpc']
+  · exact NumItem.instr default (a := .i (String.ofList m) (.str (String.ofList a)) (.str (String.ofList b)) (.arith (String.ofList c)) false)
+      rfl hnum
+
 /-! ## whole source texts -/
 
 /-- the documented spelling freedoms, on the line list of a source text -/
@@ -245,6 +601,10 @@ inductive SpellRel : List (List Char) → List (List Char) → Prop
       SpellRel as bs → SpellRel (a :: as) (b :: bs)
   /-- registers spelled differently -/
   | regs {a b : List Char} {as bs : List (List Char)} : RegRespelled a b →
+      SpellRel as bs → SpellRel (a :: as) (b :: bs)
+  /-- an integer spelled differently (16 / 0x10 / 0b10000), or any immediate text replaced by one
+      of the same value in every environment -/
+  | ints {a b : List Char} {as bs : List (List Char)} : IntRespelled a b →
       SpellRel as bs → SpellRel (a :: as) (b :: bs)
   /-- a blank or comment-only line inserted -/
   | insert {l : List Char} {as bs : List (List Char)} : SilentLine l → SpellRel as bs → SpellRel as (l :: bs)
@@ -267,36 +627,67 @@ theorem SpellRel.context (pre post : List (List Char)) {as bs : List (List Char)
     | respell ha hb hab pa pb _ ih => exact .respell ha hb hab pa pb ih
     | form h _ ih => exact .form h ih
     | regs h _ ih => exact .regs h ih
+    | ints h _ ih => exact .ints h ih
     | insert hl _ ih => exact .insert hl ih
     | delete hl _ ih => exact .delete hl ih
   | cons l pre ih => exact .keep l ih
 
-theorem SpellRel.linesRel {as bs : List (List Char)} (h : SpellRel as bs) : LinesRel Item.Same as bs := by
+theorem SpellRel.linesRel {as bs : List (List Char)} (h : SpellRel as bs) : LinesRel SpellItem as bs := by
   induction h with
   | nil => exact .nil
   | keep l _ ih => exact .same l ih
   | respell ha hb hab pa pb _ ih =>
-    exact .change pa pb (ORel.of_eq Item.Same.refl (lineItems_sepEq ha hb hab)) ih
+    exact .change pa pb (ORel.of_eq SpellItem.refl (lineItems_sepEq ha hb hab)) ih
   | form h _ ih =>
     rcases h with h | h
     · obtain ⟨pa, pb, e⟩ := baseOffsetPair_spec h
-      exact .change pa pb (ORel.of_eq Item.Same.refl e) ih
+      exact .change pa pb (ORel.of_eq SpellItem.refl e) ih
     · obtain ⟨pb, pa, e⟩ := baseOffsetPair_spec h
-      exact .change pa pb (ORel.of_eq Item.Same.refl e.symm) ih
-  | regs h _ ih => exact .change h.1 h.2.1 (regRespelled_orel h) ih
+      exact .change pa pb (ORel.of_eq SpellItem.refl e.symm) ih
+  | regs h _ ih => exact .change h.1 h.2.1 (orel_mono (fun _ _ => SpellItem.of_same) (regRespelled_orel h)) ih
+  | ints h _ ih => exact .change h.1 h.2.1 (intRespelled_orel h) ih
   | insert hl _ ih => exact .insert (silent_isPlainLine hl) (silent_lineItems hl) ih
   | delete hl _ ih => exact .delete (silent_isPlainLine hl) (silent_lineItems hl) ih
 
 /-- **C13 at program level.**  Two source texts (same filesystem, working directory, include
-    directories, mode) whose lines are related by the documented spelling freedoms assemble to
-    the same bytes, labels and constants — or both fail. -/
+    directories, mode) whose lines are related by the documented spelling freedoms (`SpellRel`:
+    separators / indentation / comments, blank and comment-only lines, the two base+offset
+    layouts, register spellings, integer spellings) assemble to the same bytes, labels and
+    constants — or both fail (in the same way: `spelling_same_result_errors`).
+    Both programs are `.source` texts and ASCII (`hA`, `hB`); see the file header for the scope. -/
 theorem spelling_same_result (fs : FS) (cwd : String) (dirs : List String) (c : Bool) (A B : String)
     (hcwd : normAbs cwd = true) (hdirs : dirs.all absOk = true)
     (hA : A.toList.all (fun c => c.toNat < 128) = true) (hB : B.toList.all (fun c => c.toNat < 128) = true)
     (h : SpellRel (splitLines A.toList) (splitLines B.toList)) :
     resultOf (assembleText fs cwd dirs c (.source A)) = resultOf (assembleText fs cwd dirs c (.source B)) :=
-  assembleText_linesRel Item.Same.refl fs cwd dirs c A B hcwd hdirs hA hB
-    (fun its its' hr => by rw [assembleItems_regSame (textHooks fs) c its its' [] hr]) h.linesRel
+  assembleText_linesRel SpellItem.refl fs cwd dirs c A B hcwd hdirs hA hB
+    (fun its its' hr => by rw [assembleItems_spellItem fs c hr]) h.linesRel
+
+/-- **… with the errors kept apart** (review finding X4: `resultOf` maps every failure to `none`).
+    When the front end (read_lines, lexer, parser) accepts the first text it accepts the second, and
+    the two outcomes of `assembleText` are EQUAL as `Except` values once the `Line` carried by an
+    AssemblerError is erased: same bytes / labels / constants, or the same kind of failure
+    (AssemblerError ↔ AssemblerError, the same escaping exception, the same `unsupported`).  The line
+    itself differs legitimately: numbers shift, contents are re-spelled. -/
+theorem spelling_same_result_errors (fs : FS) (cwd : String) (dirs : List String) (c : Bool) (A B : String)
+    (hcwd : normAbs cwd = true) (hdirs : dirs.all absOk = true)
+    (hA : A.toList.all (fun c => c.toNat < 128) = true) (hB : B.toList.all (fun c => c.toNat < 128) = true)
+    (h : SpellRel (splitLines A.toList) (splitLines B.toList))
+    {its : List Item} (hf : frontEnd fs cwd dirs (.source A) = .ok its) :
+    ∃ its', frontEnd fs cwd dirs (.source B) = .ok its' ∧
+      mapErrLine (fun _ => default) (assembleText fs cwd dirs c (.source B)) =
+        mapErrLine (fun _ => default) (assembleText fs cwd dirs c (.source A)) := by
+  have hrel := frontEnd_linesRel SpellItem.refl fs cwd dirs A B hcwd hdirs hA hB h.linesRel
+  rw [hf] at hrel
+  cases hb : frontEnd fs cwd dirs (.source B) with
+  | error e => rw [hb] at hrel; exact absurd hrel (by simp [erasedItems, ORel])
+  | ok its' =>
+    rw [hb] at hrel
+    refine ⟨its', rfl, ?_⟩
+    simp only [assembleText, hf, hb, bind, Except.bind]
+    rw [← assembleItems_mapLine (textHooks fs) _ (textHooks_natural fs _),
+      ← assembleItems_mapLine (textHooks fs) _ (textHooks_natural fs _)]
+    exact (assembleItems_spellItem fs c hrel).symm
 
 /-- the same with the texts given as their lines (each followed by "\n") -/
 theorem spelling_same_result_lines (fs : FS) (cwd : String) (dirs : List String) (c : Bool)
@@ -339,6 +730,19 @@ theorem regspell_same_result (fs : FS) (cwd : String) (dirs : List String) (c : 
   rw [hsA, hsB]
   exact SpellRel.context pre post (.regs hab .nil)
 
+/-- **integer spellings, program level**: one line replaced by a line whose item differs only in
+    how an immediate is written (16 / 0x10 / 0b10000 …), everything else kept -/
+theorem intspell_same_result (fs : FS) (cwd : String) (dirs : List String) (c : Bool) (A B : String)
+    (pre post : List (List Char)) (a b : List Char)
+    (hcwd : normAbs cwd = true) (hdirs : dirs.all absOk = true)
+    (hA : A.toList.all (fun c => c.toNat < 128) = true) (hB : B.toList.all (fun c => c.toNat < 128) = true)
+    (hsA : splitLines A.toList = pre ++ a :: post) (hsB : splitLines B.toList = pre ++ b :: post)
+    (hab : IntRespelled a b) :
+    resultOf (assembleText fs cwd dirs c (.source A)) = resultOf (assembleText fs cwd dirs c (.source B)) := by
+  apply spelling_same_result fs cwd dirs c A B hcwd hdirs hA hB
+  rw [hsA, hsB]
+  exact SpellRel.context pre post (.ints hab .nil)
+
 /-! ### several rewriting rounds (e.g. a base+offset line that is also re-indented) -/
 
 /-- a line list that is the `splitlines()` of an ASCII text -/
@@ -364,11 +768,12 @@ instance (l : List Char) : Decidable (NoBreak l) := by unfold NoBreak; infer_ins
 
 def exA : List (List Char) :=
   ["main:".toList, "lw x1, 4(sp)".toList, "include defs.asm".toList, "add x8, x9, x10".toList,
-   "beqz x8, main".toList, "sw a0, 8(sp)".toList]
+   "beqz x8, main".toList, "addi x5, x5, 16".toList, "sw a0, 8(sp)".toList]
 
 def exB : List (List Char) :=
   ["# start".toList, "main:".toList, [], "\tlw x1,\t4(sp)  # load".toList, "include defs.asm".toList,
-   "add fp, s1, 0xa".toList, "beqz s0, main".toList, "   ".toList, "sw sp, a0, 8".toList]
+   "add fp, s1, 0xa".toList, "beqz s0, main".toList, "addi x5, x5, 0x10".toList, "   ".toList,
+   "sw sp, a0, 8".toList]
 
 theorem ex_sepEq : SepEq "lw x1, 4(sp)".toList "\tlw x1,\t4(sp)  # load".toList := by
   have s1 : SepEq "lw x1, 4(sp)".toList "lw x1,\t4(sp)".toList :=
@@ -383,17 +788,17 @@ theorem ex_sepEq : SepEq "lw x1, 4(sp)".toList "\tlw x1,\t4(sp)  # load".toList 
     .step (by decide) (by decide) (SepStep.comment _ " load".toList)
   exact (s1.trans s2).trans (s3.trans s4)
 
-/-- `add x8, x9, x10` and `add fp, s1, 0xa`: the same registers -/
+/-- `add x8, x9, x10` and `add fp, s1, 0xa`: the same registers — from the TEXT of the two lines
+    (`regRespelled_flat3`; the token condition is `RegTokens.r`) -/
 theorem ex_regs_add : RegRespelled "add x8, x9, x10".toList "add fp, s1, 0xa".toList :=
-  ⟨isPlainLine_of_head _ _ (by decide), isPlainLine_of_head _ _ (by decide), by decide, by decide,
-   ["add", "x8", "x9", "x10"], ["add", "fp", "s1", "0xa"],
-   .instr default (.r "add" (.str "x8") (.str "x9") (.str "x10")),
-   .instr default (.r "add" (.str "fp") (.str "s1") (.str "0xa")),
-   by decide, by decide, by decide, by decide, by decide, by decide,
-   .instr default (.r "add" (.inr ⟨8, by decide, by decide⟩) (.inr ⟨9, by decide, by decide⟩)
-     (.inr ⟨10, by decide, by decide⟩))⟩
+  regRespelled_flat3 "add".toList "x8".toList "x9".toList "x10".toList "fp".toList "s1".toList "0xa".toList
+    (by decide) (by decide) (by decide) (by decide) (by decide) (by decide) (by decide)
+    (by decide) (by decide) (by decide)
+    (.r "add" (by decide) (by decide) (by decide) (.inr ⟨8, by decide, by decide⟩)
+      (.inr ⟨9, by decide, by decide⟩) (.inr ⟨10, by decide, by decide⟩))
+    (parse_rtype default "add" "x8" "x9" "x10" (by decide) (by decide))
 
-/-- a pseudo-instruction: `beqz x8, main` and `beqz s0, main` -/
+/-- a pseudo-instruction: `beqz x8, main` and `beqz s0, main` (directly from the definition) -/
 theorem ex_regs_beqz : RegRespelled "beqz x8, main".toList "beqz s0, main".toList :=
   ⟨isPlainLine_of_head _ _ (by decide), isPlainLine_of_head _ _ (by decide), by decide, by decide,
    ["beqz", "x8", "main"], ["beqz", "s0", "main"],
@@ -402,9 +807,26 @@ theorem ex_regs_beqz : RegRespelled "beqz x8, main".toList "beqz s0, main".toLis
    .pseudo default "beqz" (.brz "beq") (by decide)
      ⟨"x8", "s0", "main", rfl, rfl, .inr ⟨8, by decide, by decide⟩⟩⟩
 
+/-- `16` and `0x10` are numerals of one value (C11 `lit_arith`) -/
+theorem ex_num16 : NumImm (.arith "16") (.arith "0x10") :=
+  numImm_spellings 16 "16".toList "0x10".toList (.inl (by decide)) (.inr (.inl (by decide))) (by decide) (by decide)
+
+/-- `addi x5, x5, 16` and `addi x5, x5, 0x10` — from the TEXT of the two lines -/
+theorem ex_ints_addi : IntRespelled "addi x5, x5, 16".toList "addi x5, x5, 0x10".toList :=
+  intRespelled_flat3 "addi".toList "x5".toList "x5".toList "16".toList "0x10".toList
+    (by decide) (by decide) (by decide) (by decide) (by decide) (by decide) (by decide)
+    (by decide) (by decide) ex_num16
+
+/-- the third spelling -/
+example : IntRespelled "addi x5, x5, 16".toList "addi x5, x5, 0b10000".toList :=
+  intRespelled_flat3 "addi".toList "x5".toList "x5".toList "16".toList "0b10000".toList
+    (by decide) (by decide) (by decide) (by decide) (by decide) (by decide) (by decide)
+    (by decide) (by decide)
+    (numImm_spellings 16 "16".toList "0b10000".toList (.inl (by decide)) (.inr (.inr (by decide))) (by decide) (by decide))
+
 /-- a comment line and two blank lines inserted, the load re-spelled, the registers of the add and
-    of the beqz spelled differently, the store rewritten to the flat form; the label and the include
-    line kept -/
+    of the beqz spelled differently, the immediate of the addi written in hexadecimal, the store
+    rewritten to the flat form; the label and the include line kept -/
 theorem ex_rel : SpellRel exA exB :=
   .insert ⟨[], "# start".toList, rfl, by decide, .inr ⟨" start".toList, rfl, by decide, by decide⟩⟩
   (.keep _
@@ -413,19 +835,75 @@ theorem ex_rel : SpellRel exA exB :=
   (.keep _
   (.regs ex_regs_add
   (.regs ex_regs_beqz
+  (.ints ex_ints_addi
   (.insert ⟨"   ".toList, [], rfl, by decide, .inl rfl⟩
   (.form (.inl (BaseOffsetPair.store "sw" "sp".toList "a0".toList "8".toList (by decide) (by decide) (by decide)
       (by decide) (by decide) (by decide)))
-  .nil))))))))
+  .nil)))))))))
 
 /-- … so, on any filesystem (whatever defs.asm holds, or if it is missing), from any working
     directory, in both modes, the two texts have the same result -/
-example (fs : FS) (cwd : String) (dirs : List String) (c : Bool)
+theorem ex_same (fs : FS) (cwd : String) (dirs : List String) (c : Bool)
     (hcwd : normAbs cwd = true) (hdirs : dirs.all absOk = true) :
     resultOf (assembleText fs cwd dirs c (.source (String.ofList (unlines exA)))) =
       resultOf (assembleText fs cwd dirs c (.source (String.ofList (unlines exB)))) :=
   spelling_same_result_lines fs cwd dirs c exA exB hcwd hdirs (by decide) (by decide)
     (by decide) (by decide) ex_rel
+
+/-! #### … and on a concrete filesystem both sides SUCCEED -/
+
+/-- /w/defs.asm holds `K = 4` -/
+def exFS : FS := { files := [("/w/defs.asm", "K = 4\n".toList.map Char.toNat)], dirs := ["/", "/w"] }
+
+theorem ex_abs_w : normAbs "/w" = true := by
+  have h : ("/w".splitOn "/") = ["", "w"] := by
+    simp [String.splitOn]
+    repeat (rw [String.splitOnAux.eq_1]; simp (decide := true))
+  unfold normAbs; simp only [h]; decide
+
+/-- `exA` with the include line replaced by the line of defs.asm -/
+def exFlat : String :=
+  "main:\nlw x1, 4(sp)\nK = 4\nadd x8, x9, x10\nbeqz x8, main\naddi x5, x5, 16\nsw a0, 8(sp)\n"
+
+theorem ex_flat_result : assembleText exFS "/w" [] false (.source exFlat) =
+    .ok { bytes := [131, 32, 65, 0, 51, 132, 164, 0, 227, 12, 4, 254, 147, 130, 2, 1, 35, 36, 161, 0],
+          labels := [("main", 0)], constants := [("K", 4)] } := by
+  unfold assembleText frontEnd
+  have h1 : sourceOk exFlat.toList = true := by decide
+  have hs : splitLines exFlat.toList =
+      ["main:".toList, "lw x1, 4(sp)".toList, "K = 4".toList, "add x8, x9, x10".toList,
+       "beqz x8, main".toList, "addi x5, x5, 16".toList, "sw a0, 8(sp)".toList] := by decide
+  simp only [ex_abs_w, List.all_nil, h1, readLinesAux.eq_2, hs]
+  simp only [readLinesAux.go.eq_2, readLinesAux.go.eq_1]
+  decide +kernel
+
+/-- **both sides of the example succeed** on `exFS`, with these twenty bytes: the theorem is not
+    "both fail".  (`exA` includes defs.asm: C14 `include_same_result` splices it, the kernel
+    evaluates the flat text, `ex_same` carries the value over to `exB`.) -/
+theorem ex_both_succeed :
+    resultOf (assembleText exFS "/w" [] false (.source (String.ofList (unlines exA)))) =
+      some { bytes := [131, 32, 65, 0, 51, 132, 164, 0, 227, 12, 4, 254, 147, 130, 2, 1, 35, 36, 161, 0],
+             labels := [("main", 0)], constants := [("K", 4)] } ∧
+    resultOf (assembleText exFS "/w" [] false (.source (String.ofList (unlines exB)))) =
+      some { bytes := [131, 32, 65, 0, 51, 132, 164, 0, 227, 12, 4, 254, 147, 130, 2, 1, 35, 36, 161, 0],
+             labels := [("main", 0)], constants := [("K", 4)] } := by
+  have hA : resultOf (assembleText exFS "/w" [] false (.source (String.ofList (unlines exA)))) =
+      resultOf (assembleText exFS "/w" [] false (.source exFlat)) :=
+    C14.include_same_result exFS "/w" [] false _ exFlat ["main:".toList, "lw x1, 4(sp)".toList]
+      ["add x8, x9, x10".toList, "beqz x8, main".toList, "addi x5, x5, 16".toList, "sw a0, 8(sp)".toList]
+      "include defs.asm".toList "defs.asm" "/w/defs.asm" ("K = 4\n".toList.map Char.toNat) "K = 4\n".toList
+      ex_abs_w (by decide) (by decide) (by decide) (by decide) (by decide)
+      ⟨by decide, "include".toList, "defs.asm".toList, by decide, by decide⟩
+      (by decide) (by decide) (by decide) (by decide) (by decide)
+      (by
+        have h : splitLines "K = 4\n".toList = ["K = 4".toList] := by decide
+        rw [h]
+        intro l hl
+        simp only [List.mem_cons, List.not_mem_nil, or_false] at hl
+        subst hl
+        exact ⟨by decide, by decide⟩)
+  rw [ex_flat_result] at hA
+  exact ⟨hA, (ex_same exFS "/w" [] false ex_abs_w (by decide)).symm.trans hA⟩
 
 /-- the freedom ends where `lookup_register` is not what reads the operand: `fence` parses its
     operands as integers, so `x1` is no spelling of `1` there (`regSame_fence_counterexample`) -/
